@@ -540,15 +540,27 @@ def blocks_of(snapshot_feats, types, keycols):
     return [(k, lo, hi, frozenset(m)) for (k, lo, hi), m in sorted(members.items()) if len(m) > 1]
 
 
-def merge_all_case(rows, with_gene, mode, exclude, fails, nfail):
+def merge_all_case(rows, with_gene, mode, exclude, fails, nfail, filedir=None):
     feats = build(rows)
     rels = []
     if with_gene:
         feats.append(mk("g", 1, 40, "c1", "+", "gene"))
         rels = [("g", f.id, 1) for f in feats[:-1]]
     db = native_db(feats, rels)
+    path = None
+    if filedir is not None:
+        # the same database as a FILE (delete() then takes its backup branch); what is judged is what a reopened database holds
+        import sqlite3 as _sq, os as _os, gffutils as _g
+        path = _os.path.join(filedir, "m.db")
+        for x in (path, path + ".bak"):
+            if _os.path.exists(x):
+                _os.remove(x)
+        dest = _sq.connect(path)
+        db.conn.backup(dest)
+        dest.close()
+        db = _g.FeatureDB(path)
     before_f, before_r = db_snapshot(db)
-    case = {"features": describe(feats), "relations": rels, "mode": mode, "exclude_components": exclude}
+    case = {"features": describe(feats), "relations": rels, "mode": mode, "exclude_components": exclude, "database": "file" if path else "memory"}
     if mode == "default":
         kw, types, keycols = {}, None, ("seqid", "strand", "featuretype")
     elif mode == "default_explicit":
@@ -581,6 +593,10 @@ def merge_all_case(rows, with_gene, mode, exclude, fails, nfail):
     ids = [m.id for m in res]
     if len(set(ids)) != len(ids) or set(ids) & set(before_f):
         problems.append("returned ids not fresh/distinct: %r" % (ids,))
+    if path is not None:
+        import gffutils as _g
+        db.conn.commit()
+        db = _g.FeatureDB(path)
     after_f, after_r = db_snapshot(db)
     exp_f = dict(before_f)
     exp_r = set(before_r)
@@ -658,6 +674,15 @@ def unit_store(U):
             mode = modes[(k + exclude) % 4] if k % 3 else "default"
             merge_all_case(rows, with_gene=bool((k // 2) % 2), mode=mode, exclude=exclude, fails=fails, nfail=nfail)
             cases += 1
+            if k % 10 == 0:
+                # every tenth case also on a file database
+                import tempfile as _tf, shutil as _sh
+                d = _tf.mkdtemp()
+                try:
+                    merge_all_case(rows, with_gene=bool((k // 2) % 2), mode=mode, exclude=exclude, fails=fails, nfail=nfail, filedir=d)
+                    cases += 1
+                finally:
+                    _sh.rmtree(d, ignore_errors=True)
     U.bounded_result(
         "C16.bounded.merge_all",
         "database after merge_all == database before + one stored feature (fresh id, union extent) per multi-member run of the "
